@@ -305,6 +305,9 @@ class _rewrite_captured_vars(ast.NodeTransformer):
         def safe_parse_wrapper(x: Callable) -> Optional[ast.Lambda]:
             if any(x is f for f in self._expanding):
                 return None
+            if inspect.ismethod(x):
+                # A bound method carries its object: its source text alone is not the callable.
+                return None
             try:
                 lm = _parse_source_for_lambda(x, None)
                 if lm is not None:
